@@ -1,4 +1,852 @@
+//! C19 - the runner fails safely on missing, extra or conflicting inputs, identically in the
+//! debug and the optimised profile (engine E7: profile differential).
+//!
+//! One source, three roles:
+//!   * driver  `target/release/c19 <tier> ...`  enumerates circuits (catalogue + every program of
+//!     small E1 families) and, per circuit, the fault scripts (`cases::scripts_for`);
+//!   * worker  `target/release/c19 --worker ...` and `target/debug/c19 --worker ...` execute every
+//!     script against the real `/repo` crates compiled in their profile and print one outcome
+//!     per script (`ok:<digest>` / `err:<Variant>` / `panic:<msg>`); a worker that dies is
+//!     restarted after the job it died in, whose scripts are then run one per process so that
+//!     the crash becomes the outcome of exactly one case;
+//!   * the driver compares both profiles against the oracle of the property.
+//!
+//! Every case that looks violating in the bulk run is re-executed alone in a fresh process of
+//! each profile before it is reported, so undefined behaviour in one case cannot taint the
+//! verdict of another.
+
+mod cases;
+
+use std::collections::BTreeMap;
+use std::io::{BufRead, BufReader, Write};
+use std::path::{Path, PathBuf};
+use std::process::{Command, Stdio};
+use std::sync::Mutex;
+use std::sync::atomic::{AtomicU64, Ordering};
+use std::sync::mpsc;
+use std::time::{Duration, Instant};
+
+use cases::*;
+use vpcore::rayon::prelude::*;
+use vpcore::serde_json::{self, Value, json};
+use vpcore::{Ctx, Histo, Report, finish, machinery_error};
+use vpe1::enumerate::{AK, Family, VK};
+use vpe1::explore::{SeenSet, Stats, explore, input_vectors};
+use vpe1::prog::Program;
+
+// =======================================================================================
+// worker
+
+struct RunAll;
+impl Visitor<(u64, Vec<String>)> for RunAll {
+    fn go<F: CField>(self, b: Built<F>) -> (u64, Vec<String>) {
+        let scripts = scripts_for(&b);
+        let outs = scripts
+            .iter()
+            .enumerate()
+            .map(|(i, s)| {
+                selftest_abort(i);
+                run_caught(&b, s)
+            })
+            .collect();
+        (scripts_hash(&scripts), outs)
+    }
+}
+struct RunOne(usize);
+impl Visitor<String> for RunOne {
+    fn go<F: CField>(self, b: Built<F>) -> String {
+        let scripts = scripts_for(&b);
+        selftest_abort(self.0);
+        match scripts.get(self.0) {
+            Some(s) => run_caught(&b, s),
+            None => "nosuchscript".into(),
+        }
+    }
+}
+/// Machinery self-test (`--opt selftest_abort=J:S`, release workers only): the process aborts
+/// in case (job J, script S) so that restart + per-script isolation can be demonstrated.
+static CUR_JOB: std::sync::atomic::AtomicI64 = std::sync::atomic::AtomicI64::new(-1);
+fn selftest_abort(script: usize) {
+    if !cfg!(debug_assertions)
+        && let Ok(v) = std::env::var("C19_SELFTEST_ABORT")
+        && let Some((j, s)) = v.split_once(':')
+        && j.parse::<i64>().ok() == Some(CUR_JOB.load(Ordering::Relaxed))
+        && s.parse::<usize>().ok() == Some(script)
+    {
+        std::process::abort();
+    }
+}
+
+fn run_caught<F: CField>(b: &Built<F>, s: &Script) -> String {
+    match vpcore::quiet_catch(|| exec_script(&b.circuit, s)) {
+        Ok(o) => o,
+        Err(msg) => format!("panic:{}", msg.replace('\n', " ")),
+    }
+}
+
+fn load_specs(path: &Path) -> Vec<Spec> {
+    let s = std::fs::read_to_string(path).unwrap_or_else(|e| {
+        println!("X 0 cannot read jobs file: {e}");
+        std::process::exit(3)
+    });
+    s.lines().filter(|l| !l.is_empty()).map(|l| serde_json::from_str(l).expect("job line")).collect()
+}
+
+/// `--worker <jobs> --stride K R [--after J]` | `--worker <jobs> --one J S`
+fn worker_main(args: &[String]) -> ! {
+    vpcore::install_quiet_panic_hook();
+    let out = std::io::stdout();
+    let mut out = out.lock();
+    let _ = writeln!(out, "H {}", cfg!(debug_assertions));
+    let specs = load_specs(Path::new(&args[0]));
+    let num = |i: usize| -> i64 { args.get(i).and_then(|s| s.parse().ok()).unwrap_or(-1) };
+    match args.get(1).map(|s| s.as_str()) {
+        Some("--one") => {
+            let (j, s) = (num(2) as usize, num(3) as usize);
+            let _ = writeln!(out, "B {j}");
+            let _ = out.flush();
+            CUR_JOB.store(j as i64, Ordering::Relaxed);
+            match with_built(&specs[j], RunOne(s)) {
+                Ok(o) => {
+                    let _ = writeln!(out, "O {o}");
+                }
+                Err(e) => {
+                    let _ = writeln!(out, "X {j} {e}");
+                }
+            }
+        }
+        Some("--stride") => {
+            let (k, r) = (num(2).max(1) as usize, num(3).max(0) as usize);
+            let after = if args.get(4).map(|s| s.as_str()) == Some("--after") { num(5) } else { -1 };
+            for j in (r..specs.len()).step_by(k) {
+                if (j as i64) <= after {
+                    continue;
+                }
+                let _ = writeln!(out, "B {j}");
+                let _ = out.flush();
+                CUR_JOB.store(j as i64, Ordering::Relaxed);
+                match with_built(&specs[j], RunAll) {
+                    Ok((h, outs)) => {
+                        let _ = writeln!(out, "R {j} {h:016x} {}", serde_json::to_string(&outs).unwrap());
+                    }
+                    Err(e) => {
+                        let _ = writeln!(out, "X {j} {e}");
+                    }
+                }
+            }
+            let _ = writeln!(out, "E");
+        }
+        _ => {
+            let _ = writeln!(out, "X 0 bad worker arguments");
+        }
+    }
+    let _ = out.flush();
+    std::process::exit(0)
+}
+
+// =======================================================================================
+// driver: job list
+
+struct JobMeta {
+    spec: Spec,
+    names: Vec<String>,
+    faults: Vec<&'static str>,
+    expects: Vec<Expect>,
+    hash: u64,
+}
+struct MetaOf;
+impl Visitor<(Vec<String>, Vec<&'static str>, Vec<Expect>, u64)> for MetaOf {
+    fn go<F: CField>(self, b: Built<F>) -> (Vec<String>, Vec<&'static str>, Vec<Expect>, u64) {
+        let s = scripts_for(&b);
+        (
+            s.iter().map(|x| x.name.clone()).collect(),
+            s.iter().map(|x| x.fault).collect(),
+            s.iter().map(|x| x.expect).collect(),
+            scripts_hash(&s),
+        )
+    }
+}
+fn meta_of(spec: Spec) -> Result<JobMeta, String> {
+    let (names, faults, expects, hash) = with_built(&spec, MetaOf)?;
+    Ok(JobMeta { spec, names, faults, expects, hash })
+}
+
+/// Readers of a witness slot in the circuit of `spec` (attribution of a profile difference).
+struct ReadersOf(u32);
+impl Visitor<Vec<String>> for ReadersOf {
+    fn go<F: CField>(self, b: Built<F>) -> Vec<String> {
+        readers_of(&b.circuit, self.0)
+    }
+}
+
+fn fam(name: &str, vk: &[VK], k: usize, c: usize, max_pub: usize, max_priv: usize, consts: &[u8], max_wide: usize) -> Family {
+    Family {
+        name: name.into(),
+        value_kinds: vk.to_vec(),
+        // AssertBool is left out on purpose: the runner does not evaluate boolean checks
+        // (they are an AIR constraint), so a non-boolean value is not a *runner* conflict
+        assert_kinds: vec![AK::Connect, AK::AssertZero],
+        max_value_ops: k,
+        max_asserts: c,
+        max_pub,
+        max_priv,
+        consts: consts.to_vec(),
+        max_wide,
+        wide_no_atoms: true,
+        sym_reduce: true,
+    }
+}
+
+fn families(thorough: bool) -> Vec<Family> {
+    let bin = [VK::Add, VK::Sub, VK::Mul, VK::Div];
+    let wide = [VK::Add, VK::Mul, VK::MulAdd, VK::Select, VK::Horner];
+    let bits = [VK::Add, VK::Mul, VK::Bits(2), VK::Bits(3)];
+    if !thorough {
+        vec![
+            fam("bin-k2-c1", &bin, 2, 1, 2, 2, &[1, 2], 0),
+            fam("wide-k2-c1", &wide, 2, 1, 4, 0, &[2], 1),
+            fam("bits-k2-c1", &bits, 2, 1, 2, 1, &[1], 0),
+        ]
+    } else {
+        vec![
+            fam("bin-k2-c2", &bin, 2, 2, 3, 2, &[0, 1, 2], 0),
+            fam("wide-k2-c1", &wide, 2, 1, 5, 1, &[1, 2], 1),
+            fam("bits-k2-c2", &bits, 2, 2, 2, 2, &[1, 2], 0),
+            fam("bin-k3-c1", &bin, 3, 1, 2, 2, &[2], 0),
+            fam("wide-k2-wide2", &[VK::MulAdd, VK::Select, VK::Horner], 2, 1, 5, 0, &[2], 2),
+        ]
+    }
+}
+
+/// First satisfying, fully defined input vector; vectors whose entries are pairwise distinct
+/// and non-zero are preferred (they make swapped / shifted positions visible).
+fn find_baseline(m: &vpe1::prog::Materialized<BF>) -> Option<(Vec<u64>, Vec<u64>)> {
+    let (n_pub, n_priv) = (m.n_pub, m.n_priv);
+    let n = n_pub + n_priv;
+    let alpha: Vec<u64> = match n {
+        0..=2 => vec![2, 3, 1, 5, 7, 6, 4, 10, 25, 15, 0, P - 1],
+        3 => vec![2, 3, 1, 5, 7, 10, 6, 0],
+        _ => vec![2, 3, 1, 5, 7, 0],
+    };
+    let all = input_vectors(&alpha, n);
+    let nice = |v: &Vec<u64>| {
+        v.iter().all(|x| *x != 0) && (0..v.len()).all(|i| (0..i).all(|j| v[i] != v[j]))
+    };
+    for pass in 0..2 {
+        for v in &all {
+            if (pass == 0) != nice(v) {
+                continue;
+            }
+            if dag_classify(&m.nodes, &m.connects, &v[..n_pub], &v[n_pub..]) == Tri::Sat {
+                return Some((v[..n_pub].to_vec(), v[n_pub..].to_vec()));
+            }
+        }
+    }
+    None
+}
+
+// =======================================================================================
+// driver: worker pool
+
+#[derive(Clone, Copy, PartialEq, Eq, Debug)]
+enum Profile {
+    Dev,
+    Release,
+}
+impl Profile {
+    fn tag(&self) -> &'static str {
+        match self {
+            Profile::Dev => "dev",
+            Profile::Release => "release",
+        }
+    }
+}
+
+struct Workers {
+    dev: PathBuf,
+    release: PathBuf,
+    tmp: PathBuf,
+}
+impl Workers {
+    fn exe(&self, p: Profile) -> &Path {
+        match p {
+            Profile::Dev => &self.dev,
+            Profile::Release => &self.release,
+        }
+    }
+}
+
+fn locate_workers() -> Workers {
+    let me = std::env::current_exe().unwrap_or_else(|e| machinery_error(&format!("current_exe: {e}")));
+    let mut roots: Vec<PathBuf> = vec![];
+    if let Some(t) = me.parent().and_then(|p| p.parent()) {
+        roots.push(t.to_path_buf());
+    }
+    for k in ["CARGO_TARGET_DIR", "VERIF_TARGET_DIR"] {
+        if let Ok(v) = std::env::var(k) {
+            roots.push(PathBuf::from(v));
+        }
+    }
+    for r in &roots {
+        let (d, rel) = (r.join("debug").join("c19"), r.join("release").join("c19"));
+        if d.is_file() && rel.is_file() {
+            let tmp = r.join("c19-tmp");
+            let _ = std::fs::create_dir_all(&tmp);
+            return Workers { dev: d, release: rel, tmp };
+        }
+    }
+    machinery_error(&format!(
+        "cannot find both worker binaries (debug/c19 and release/c19) under {roots:?}; run through ./check c19"
+    ))
+}
+
+fn status_string(st: &std::process::ExitStatus) -> String {
+    use std::os::unix::process::ExitStatusExt;
+    match (st.code(), st.signal()) {
+        (_, Some(s)) => format!("signal{s}"),
+        (Some(c), _) => format!("exit{c}"),
+        _ => "unknown".into(),
+    }
+}
+
+/// One script alone in a fresh process. A dead or silent process is the outcome.
+fn run_one(w: &Workers, p: Profile, jobs: &Path, j: usize, s: usize) -> String {
+    let mut child = Command::new(w.exe(p))
+        .arg("--worker")
+        .arg(jobs)
+        .args(["--one", &j.to_string(), &s.to_string()])
+        .stdin(Stdio::null())
+        .stdout(Stdio::piped())
+        .stderr(Stdio::null())
+        .spawn()
+        .unwrap_or_else(|e| machinery_error(&format!("spawn worker: {e}")));
+    let t0 = Instant::now();
+    let status = loop {
+        match child.try_wait() {
+            Ok(Some(st)) => break Some(st),
+            Ok(None) => {
+                if t0.elapsed() > Duration::from_secs(30) {
+                    let _ = child.kill();
+                    let _ = child.wait();
+                    break None;
+                }
+                std::thread::sleep(Duration::from_millis(2));
+            }
+            Err(e) => machinery_error(&format!("wait worker: {e}")),
+        }
+    };
+    let mut text = String::new();
+    if let Some(mut o) = child.stdout.take() {
+        use std::io::Read;
+        let _ = o.read_to_string(&mut text);
+    }
+    for l in text.lines() {
+        if let Some(o) = l.strip_prefix("O ") {
+            return o.to_string();
+        }
+        if let Some(x) = l.strip_prefix("X ") {
+            machinery_error(&format!("worker ({}) cannot build job {j}: {x}", p.tag()));
+        }
+    }
+    match status {
+        None => "hang:30s".into(),
+        Some(st) => format!("crash:{}", status_string(&st)),
+    }
+}
+
+#[derive(Default)]
+struct PoolStats {
+    restarts: AtomicU64,
+    crashed_jobs: AtomicU64,
+    hangs: AtomicU64,
+    incomplete: AtomicU64,
+}
+
+/// Runs every job in `p`'s worker, `k` processes side by side (job j goes to process j mod k).
+fn run_profile(
+    w: &Workers,
+    p: Profile,
+    jobs: &Path,
+    metas: &[JobMeta],
+    k: usize,
+    deadline: Instant,
+    stats: &PoolStats,
+) -> Vec<Option<Vec<String>>> {
+    let results: Vec<Mutex<Option<Vec<String>>>> = metas.iter().map(|_| Mutex::new(None)).collect();
+    std::thread::scope(|sc| {
+        for r in 0..k {
+            let results = &results;
+            sc.spawn(move || {
+                let mut after: i64 = -1;
+                let mut restarts = 0;
+                'respawn: loop {
+                    let mut child = Command::new(w.exe(p))
+                        .arg("--worker")
+                        .arg(jobs)
+                        .args(["--stride", &k.to_string(), &r.to_string(), "--after", &after.to_string()])
+                        .stdin(Stdio::null())
+                        .stdout(Stdio::piped())
+                        .stderr(Stdio::null())
+                        .spawn()
+                        .unwrap_or_else(|e| machinery_error(&format!("spawn worker: {e}")));
+                    let stdout = child.stdout.take().unwrap();
+                    let (tx, rx) = mpsc::channel::<String>();
+                    let reader = std::thread::spawn(move || {
+                        for l in BufReader::new(stdout).lines() {
+                            let Ok(l) = l else { break };
+                            if tx.send(l).is_err() {
+                                break;
+                            }
+                        }
+                    });
+                    let mut cur: Option<usize> = None;
+                    let mut ended = false;
+                    let mut silent_ticks = 0u32;
+                    loop {
+                        if Instant::now() >= deadline {
+                            let _ = child.kill();
+                            let _ = child.wait();
+                            let _ = reader.join();
+                            stats.incomplete.fetch_add(1, Ordering::Relaxed);
+                            return;
+                        }
+                        match rx.recv_timeout(Duration::from_secs(2)) {
+                            Ok(l) => {
+                                silent_ticks = 0;
+                                let mut it = l.splitn(4, ' ');
+                                match it.next() {
+                                    Some("H") => {
+                                        let dbg = it.next() == Some("true");
+                                        if dbg != (p == Profile::Dev) {
+                                            machinery_error(&format!(
+                                                "{} worker reports debug_assertions={dbg}",
+                                                p.tag()
+                                            ));
+                                        }
+                                    }
+                                    Some("B") => {
+                                        cur = it.next().and_then(|x| x.parse().ok());
+                                    }
+                                    Some("R") => {
+                                        let j: usize = it.next().and_then(|x| x.parse().ok()).unwrap_or(usize::MAX);
+                                        let h = it.next().unwrap_or("");
+                                        let arr: Vec<String> =
+                                            serde_json::from_str(it.next().unwrap_or("[]")).unwrap_or_default();
+                                        if j >= metas.len()
+                                            || h != format!("{:016x}", metas[j].hash)
+                                            || arr.len() != metas[j].names.len()
+                                        {
+                                            machinery_error(&format!(
+                                                "{} worker enumerated a different script list for job {j}",
+                                                p.tag()
+                                            ));
+                                        }
+                                        *results[j].lock().unwrap() = Some(arr);
+                                        after = j as i64;
+                                        cur = None;
+                                    }
+                                    Some("X") => machinery_error(&format!("{} worker: {l}", p.tag())),
+                                    Some("E") => ended = true,
+                                    _ => {}
+                                }
+                            }
+                            Err(mpsc::RecvTimeoutError::Timeout) => {
+                                // a job takes milliseconds: 60 s of silence is a hang; kill the
+                                // process (the reader then sees EOF and the job in progress is
+                                // isolated script by script)
+                                silent_ticks += 1;
+                                if silent_ticks >= 30 {
+                                    let _ = child.kill();
+                                }
+                            }
+                            Err(mpsc::RecvTimeoutError::Disconnected) => break,
+                        }
+                    }
+                    let st = child.wait();
+                    let _ = reader.join();
+                    if ended {
+                        return;
+                    }
+                    // the process died (or was killed for silence) before finishing
+                    restarts += 1;
+                    stats.restarts.fetch_add(1, Ordering::Relaxed);
+                    if restarts > 200 {
+                        machinery_error(&format!("{} worker keeps dying", p.tag()));
+                    }
+                    if let Some(j) = cur {
+                        stats.crashed_jobs.fetch_add(1, Ordering::Relaxed);
+                        let _ = st;
+                        // isolate: every script of that job in its own process
+                        let outs: Vec<String> =
+                            (0..metas[j].names.len()).map(|s| run_one(w, p, jobs, j, s)).collect();
+                        stats.hangs.fetch_add(outs.iter().filter(|o| o.starts_with("hang")).count() as u64, Ordering::Relaxed);
+                        *results[j].lock().unwrap() = Some(outs);
+                        after = j as i64;
+                    }
+                    continue 'respawn;
+                }
+            });
+        }
+    });
+    results.into_iter().map(|m| m.into_inner().unwrap()).collect()
+}
+
+// =======================================================================================
+// oracle
+
+#[derive(Clone, Debug, PartialEq)]
+struct Out {
+    kind: String,    // ok | err | panic | crash | hang
+    variant: String, // error variant, or "" for ok
+    rest: String,    // digest (ok) / where:wid (err) / message
+}
+fn parse_out(s: &str) -> Out {
+    let mut it = s.splitn(3, ':');
+    let kind = it.next().unwrap_or("").to_string();
+    let second = it.next().unwrap_or("").to_string();
+    let third = it.next().unwrap_or("").to_string();
+    match kind.as_str() {
+        "ok" => Out { kind, variant: String::new(), rest: second },
+        "err" => Out { kind, variant: second, rest: third },
+        _ => Out { kind, variant: String::new(), rest: format!("{second}:{third}") },
+    }
+}
+impl Out {
+    fn short(&self) -> String {
+        match self.kind.as_str() {
+            "ok" => "Ok".into(),
+            "err" => format!("Err({})", self.variant),
+            k => format!("{k}({})", self.rest.chars().take(60).collect::<String>()),
+        }
+    }
+    fn abnormal(&self) -> bool {
+        !matches!(self.kind.as_str(), "ok" | "err")
+    }
+}
+
+/// The property's clauses. Returns the first clause violated.
+fn judge(expect: Expect, dev: &Out, rel: &Out, base_dev: &Out, base_rel: &Out) -> Option<&'static str> {
+    if dev.abnormal() || rel.abnormal() {
+        return Some("abort"); // panic / crash / hang instead of a Result
+    }
+    if dev.kind != rel.kind || dev.variant != rel.variant {
+        return Some("profile_diff");
+    }
+    if dev.kind == "ok" && dev.rest != rel.rest {
+        return Some("profile_diff_values");
+    }
+    match expect {
+        Expect::MustOk => (dev.kind != "ok").then_some("valid_inputs_rejected"),
+        Expect::Benign => None,
+        Expect::MustErr => (dev.kind == "ok").then_some("ok_on_fault"),
+        Expect::Withheld => {
+            // Ok is admissible only when the circuit forces the withheld slots to exactly the
+            // values the caller would have supplied (same witness value set as the baseline)
+            let bad = |o: &Out, b: &Out| o.kind == "ok" && b.kind == "ok" && o.rest != b.rest;
+            (bad(dev, base_dev) || bad(rel, base_rel)).then_some("ok_from_unset")
+        }
+    }
+}
+
+struct Candidate {
+    job: usize,
+    script: usize,
+    clause: &'static str,
+    dev: Out,
+    rel: Out,
+}
+
+/// Canonical key. A profile difference on a withheld input is attributed to the unchecked
+/// witness read of non-primitive executors when the dev profile names a slot (`WitnessNotSet`)
+/// whose first reader in execution order is a non-primitive op (see `readers_of`); the key is
+/// then `profile_diff:npo_input_unset:<op family>` and ignores the release outcome, which is
+/// undefined behaviour and may be anything (other error, Ok, crash).
+fn key_of(meta: &JobMeta, c: &Candidate) -> (String, String) {
+    let fault = meta.faults[c.script];
+    let withheld = matches!(fault, "no_pub" | "no_priv" | "no_inputs");
+    if withheld
+        && c.dev.kind == "err"
+        && c.dev.variant == "WitnessNotSet"
+        && (c.rel.kind != c.dev.kind || c.rel.variant != c.dev.variant)
+        && let Some(w) = c.dev.rest.rsplit(':').next().and_then(|x| x.parse::<u32>().ok())
+        && let Ok(readers) = with_built(&meta.spec, ReadersOf(w))
+        && !readers.is_empty()
+        && readers[0] != "alu"
+        && readers[0] != "hint"
+    {
+        return (format!("profile_diff:npo_input_unset:{}", readers[0]), "npo".into());
+    }
+    let group = format!("{}:{}:dev={}", c.clause, fault, c.dev.short());
+    (format!("{}:{}:{}:dev={}", c.clause, fault, meta.spec.show(), c.dev.short()), group)
+}
+
+// =======================================================================================
+// driver main
+
+fn write_jobs(path: &Path, specs: &[&Spec]) {
+    let mut s = String::new();
+    for x in specs {
+        s.push_str(&serde_json::to_string(x).unwrap());
+        s.push('\n');
+    }
+    std::fs::write(path, s).unwrap_or_else(|e| machinery_error(&format!("cannot write {}: {e}", path.display())));
+}
+
+fn spec_size(s: &Spec) -> (usize, usize, String) {
+    match s {
+        Spec::Cat(n) => (0, 0, n.clone()),
+        Spec::E1 { prog, pubs, privs } => (1 + prog.calls.len(), pubs.len() + privs.len(), prog.show()),
+    }
+}
+
 fn main() {
-    eprintln!("MACHINERY-ERROR: check c19 not built yet");
-    std::process::exit(2);
+    let args: Vec<String> = std::env::args().skip(1).collect();
+    if args.first().map(|s| s.as_str()) == Some("--worker") {
+        worker_main(&args[1..]);
+    }
+    vpcore::install_quiet_panic_hook();
+    let ctx = Ctx::from_args("C19", "fault_enumeration");
+    let report = Report::new();
+    let workers = locate_workers();
+    if let Some(v) = ctx.opt("selftest_abort") {
+        // inherited by every worker; only release-profile workers act on it
+        unsafe { std::env::set_var("C19_SELFTEST_ABORT", v) };
+    }
+    let jobs_path = workers.tmp.join(format!("jobs-{}.jsonl", std::process::id()));
+    let assumptions = vec![
+        "the dev-profile worker (debug_assertions on, opt-level 1) stands for 'debug builds', the release-profile worker (opt-level 3) for 'optimized builds'; both report their cfg and are built from the same sources by ./check".to_string(),
+        "two outcomes are 'identical' when both are Ok with the same set of witness values, or both Err with the same CircuitError variant (messages and payloads are not compared)".to_string(),
+        "a withheld input that the circuit itself forces (connected to a constant / solved backwards by the runner) may yield Ok, but only with exactly the baseline's witness values".to_string(),
+        "E1 programs: an input vector is 'conflicting' when the node-level reference semantics of the builder's DAG (cases::dag_classify) says a connect / assert_zero / bit-reconstruction relation is violated; assert_bool is excluded (not evaluated by the runner); vectors hitting a zero divisor carry no claim".to_string(),
+    ];
+
+    // ---------------------------------------------------------------- replay
+    if let Some(path) = &ctx.replay {
+        let r = vpcore::load_replay(path);
+        let spec: Spec = serde_json::from_value(r["spec"].clone())
+            .unwrap_or_else(|e| machinery_error(&format!("bad replay: {e}")));
+        let meta = meta_of(spec).unwrap_or_else(|e| machinery_error(&format!("replay build: {e}")));
+        let s = r["script"].as_u64().unwrap_or(0) as usize;
+        if s >= meta.names.len() {
+            machinery_error("replay: no such script");
+        }
+        write_jobs(&jobs_path, &[&meta.spec]);
+        println!("replaying {} / {}", meta.spec.show(), meta.names[s]);
+        let o = |p, s| parse_out(&run_one(&workers, p, &jobs_path, 0, s));
+        let (bd, br) = (o(Profile::Dev, 0), o(Profile::Release, 0));
+        let (d, rl) = (o(Profile::Dev, s), o(Profile::Release, s));
+        println!("  baseline: dev={bd:?} release={br:?}\n  case:     dev={d:?} release={rl:?}");
+        if let Some(clause) = judge(meta.expects[s], &d, &rl, &bd, &br) {
+            let c = Candidate { job: 0, script: s, clause, dev: d.clone(), rel: rl.clone() };
+            let (key, _) = key_of(&meta, &c);
+            report.violation(
+                key,
+                format!("[{clause}] {} / {}: dev={} release={}", meta.spec.show(), meta.names[s], d.short(), rl.short()),
+                json!({"spec": meta.spec, "script": s, "script_name": meta.names[s]}),
+            );
+        }
+        let _ = std::fs::remove_file(&jobs_path);
+        let cov = json!({"evaluations": 4, "distinct_nontrivial": 2, "rule": "replay of one stored case in both profiles (baseline + case)",
+            "samples": [format!("{} / {}", meta.spec.show(), meta.names[s])], "replay": true});
+        finish(&ctx, cov, assumptions, &report);
+    }
+
+    // ---------------------------------------------------------------- enumerate jobs
+    let thorough = !ctx.quick();
+    let mut metas: Vec<JobMeta> = vec![];
+    let mut cat_names = catalogue(thorough);
+    if let Some(only) = ctx.opt("cat") {
+        cat_names.retain(|n| *n == only);
+    }
+    for name in &cat_names {
+        match meta_of(Spec::Cat(name.to_string())) {
+            Ok(m) => metas.push(m),
+            Err(e) => machinery_error(&format!("catalogue circuit {name}: {e}")),
+        }
+    }
+    let n_cat = metas.len();
+
+    let mut fam_reports = vec![];
+    let mut enum_exhaustive = true;
+    let e1_jobs: Mutex<Vec<JobMeta>> = Mutex::new(vec![]);
+    let no_baseline = AtomicU64::new(0);
+    let build_rejected = AtomicU64::new(0);
+    let fams = if ctx.opt("e1") == Some("off") { vec![] } else { families(thorough) };
+    let seen_keys = SeenSet::default();
+    let cs = e1_consts();
+    // enumeration may use the first 45 % of the budget (families in order, simplest first)
+    for (fi, fam) in fams.iter().enumerate() {
+        let stats = Stats::default();
+        let seen_prune = SeenSet::default();
+        let _ = fi;
+        let stop_at = 0.45;
+        let t0 = ctx.elapsed_s();
+        explore::<BF, BF>(fam, &cs, &ctx, stop_at, &seen_keys, &seen_prune, &stats, &|_, _| {}, &|p, m| {
+            let Some((pubs, privs)) = find_baseline(&m) else {
+                no_baseline.fetch_add(1, Ordering::Relaxed);
+                return;
+            };
+            match meta_of(Spec::E1 { prog: p.clone(), pubs, privs }) {
+                Ok(meta) => e1_jobs.lock().unwrap().push(meta),
+                Err(_) => {
+                    build_rejected.fetch_add(1, Ordering::Relaxed);
+                }
+            }
+        });
+        let to = stats.timed_out.load(Ordering::Relaxed);
+        enum_exhaustive &= !to;
+        fam_reports.push(json!({
+            "family": fam.name, "bounds": fam,
+            "histories": stats.histories.load(Ordering::Relaxed),
+            "new_canonical_programs": stats.canonical.load(Ordering::Relaxed),
+            "exhaustive": !to, "wall_s": ctx.elapsed_s() - t0,
+        }));
+        eprintln!(
+            "family {} histories={} canonical={} exhaustive={} t={:.1}s",
+            fam.name,
+            stats.histories.load(Ordering::Relaxed),
+            stats.canonical.load(Ordering::Relaxed),
+            !to,
+            ctx.elapsed_s() - t0
+        );
+    }
+    let mut e1_jobs = e1_jobs.into_inner().unwrap();
+    // simplest first, deterministic order
+    e1_jobs.sort_by_cached_key(|m| spec_size(&m.spec));
+    metas.extend(e1_jobs);
+    let n_jobs = metas.len();
+    let n_scripts: usize = metas.iter().map(|m| m.names.len()).sum();
+    write_jobs(&jobs_path, &metas.iter().map(|m| &m.spec).collect::<Vec<_>>());
+    eprintln!("jobs={n_jobs} (catalogue {n_cat}) scripts={n_scripts} enumerated in {:.1}s", ctx.elapsed_s());
+
+    // ---------------------------------------------------------------- run both profiles
+    let deadline = ctx.start + ctx.budget.mul_f64(0.80);
+    let k: usize = ctx.opt("procs").and_then(|s| s.parse().ok()).unwrap_or(if n_jobs > 64 { 6 } else { 1 });
+    let (st_dev, st_rel) = (PoolStats::default(), PoolStats::default());
+    let (res_dev, res_rel) = std::thread::scope(|sc| {
+        let hd = sc.spawn(|| run_profile(&workers, Profile::Dev, &jobs_path, &metas, k, deadline, &st_dev));
+        let hr = sc.spawn(|| run_profile(&workers, Profile::Release, &jobs_path, &metas, k, deadline, &st_rel));
+        (hd.join().unwrap(), hr.join().unwrap())
+    });
+    eprintln!("bulk run done at {:.1}s", ctx.elapsed_s());
+
+    // ---------------------------------------------------------------- judge
+    let histo = Histo::new();
+    let mut distinct: BTreeMap<String, u64> = BTreeMap::new();
+    let mut candidates: Vec<Candidate> = vec![];
+    let mut judged_jobs = 0u64;
+    let mut judged_scripts = 0u64;
+    let mut forced_ok = 0u64;
+    let mut samples: Vec<Value> = vec![];
+    for (j, meta) in metas.iter().enumerate() {
+        let (Some(d), Some(r)) = (&res_dev[j], &res_rel[j]) else { continue };
+        judged_jobs += 1;
+        let (bd, br) = (parse_out(&d[0]), parse_out(&r[0]));
+        for s in 0..meta.names.len() {
+            judged_scripts += 1;
+            let (od, or) = (parse_out(&d[s]), parse_out(&r[s]));
+            histo.add(&format!("{} dev={} release={}", meta.faults[s], od.short(), or.short()));
+            if meta.faults[s] != "baseline" {
+                *distinct.entry(format!("{}|{}|{}", meta.faults[s], od.short(), or.short())).or_insert(0) += 1;
+            }
+            if meta.expects[s] == Expect::Withheld && od.kind == "ok" && or.kind == "ok" && od.rest == bd.rest {
+                forced_ok += 1;
+            }
+            if let Some(clause) = judge(meta.expects[s], &od, &or, &bd, &br) {
+                candidates.push(Candidate { job: j, script: s, clause, dev: od, rel: or });
+            } else if samples.len() < 8 && (j < n_cat && s % 7 == 3 || j == n_cat + 50 + samples.len()) {
+                samples.push(json!({"circuit": meta.spec.show(), "script": meta.names[s],
+                    "expect": format!("{:?}", meta.expects[s]), "dev": d[s], "release": r[s]}));
+            }
+        }
+    }
+    let raw_candidates = candidates.len();
+
+    // group candidates; confirm the smallest members of each group alone in fresh processes
+    let mut groups: BTreeMap<String, Vec<usize>> = BTreeMap::new();
+    for (i, c) in candidates.iter().enumerate() {
+        let (key, group) = key_of(&metas[c.job], c);
+        // catalogue circuits and attributed findings keep their full key; E1 programs are
+        // grouped by (clause, fault class, dev outcome) and represented by the smallest program
+        let g = if c.job < n_cat || group == "npo" { key } else { format!("e1|{group}") };
+        groups.entry(g).or_default().push(i);
+    }
+    let confirm_total = AtomicU64::new(0);
+    let unconfirmed = AtomicU64::new(0);
+    let group_list: Vec<(&String, &Vec<usize>)> = groups.iter().collect();
+    group_list.par_iter().for_each(|(_g, members)| {
+        // members are in job order = simplest first
+        let mut confirmed: Option<(Candidate, String)> = None;
+        for &i in members.iter().take(6) {
+            let c = &candidates[i];
+            let meta = &metas[c.job];
+            let o = |p, s| parse_out(&run_one(&workers, p, &jobs_path, c.job, s));
+            let (bd, br) = (o(Profile::Dev, 0), o(Profile::Release, 0));
+            let (d, r) = (o(Profile::Dev, c.script), o(Profile::Release, c.script));
+            confirm_total.fetch_add(1, Ordering::Relaxed);
+            if let Some(clause) = judge(meta.expects[c.script], &d, &r, &bd, &br) {
+                let cc = Candidate { job: c.job, script: c.script, clause, dev: d, rel: r };
+                let (key, _) = key_of(meta, &cc);
+                confirmed = Some((cc, key));
+                break;
+            }
+            unconfirmed.fetch_add(1, Ordering::Relaxed);
+        }
+        if let Some((c, key)) = confirmed {
+            let meta = &metas[c.job];
+            let what = format!(
+                "[{}] {} / {} (expect {:?}): dev={} release={} - {} bulk cases in this group",
+                c.clause,
+                meta.spec.show(),
+                meta.names[c.script],
+                meta.expects[c.script],
+                c.dev.short(),
+                c.rel.short(),
+                members.len()
+            );
+            let replay = json!({"spec": meta.spec, "script": c.script, "script_name": meta.names[c.script],
+                "dev": format!("{:?}", c.dev), "release": format!("{:?}", c.rel), "clause": c.clause});
+            for _ in 0..members.len().max(1) {
+                report.violation(key.clone(), what.clone(), replay.clone());
+            }
+        }
+    });
+    let _ = std::fs::remove_file(&jobs_path);
+
+    let complete = judged_jobs as usize == n_jobs;
+    let distinct_nontrivial = distinct.len();
+    if samples.is_empty() {
+        samples.push(json!("no case judged"));
+    }
+    let restarts = |s: &PoolStats| json!({"restarts": s.restarts.load(Ordering::Relaxed), "jobs_isolated_after_crash": s.crashed_jobs.load(Ordering::Relaxed),
+        "hangs": s.hangs.load(Ordering::Relaxed), "pools_cut_by_deadline": s.incomplete.load(Ordering::Relaxed)});
+    if judged_jobs == 0 {
+        machinery_error("no job was executed in both profiles within the budget");
+    }
+    let cov = json!({
+        "evaluations": 2 * judged_scripts + 4 * confirm_total.load(Ordering::Relaxed),
+        "distinct_nontrivial": distinct_nontrivial,
+        "rule": "an evaluation is one script (setter calls + run) executed on the real runner in one profile; distinct_nontrivial counts distinct (fault class, dev outcome, release outcome) triples over non-baseline scripts",
+        "samples": samples,
+        "exhaustive": enum_exhaustive && complete,
+        "circuits": n_jobs,
+        "circuits_judged_in_both_profiles": judged_jobs,
+        "catalogue": cat_names,
+        "e1_families": fam_reports,
+        "e1_programs": n_jobs - n_cat,
+        "e1_programs_without_satisfying_baseline_skipped": no_baseline.load(Ordering::Relaxed),
+        "e1_programs_rejected_by_build": build_rejected.load(Ordering::Relaxed),
+        "scripts": n_scripts,
+        "scripts_judged": judged_scripts,
+        "withheld_but_forced_by_circuit_ok": forced_ok,
+        "worker_processes_per_profile": k,
+        "dev_pool": restarts(&st_dev),
+        "release_pool": restarts(&st_rel),
+        "raw_violating_cases_bulk": raw_candidates,
+        "violation_groups": groups.len(),
+        "isolated_confirmation_runs": confirm_total.load(Ordering::Relaxed),
+        "bulk_candidates_not_reproduced_in_isolation": unconfirmed.load(Ordering::Relaxed),
+        "outcome_histogram": histo.to_json(),
+    });
+    finish(&ctx, cov, assumptions, &report);
 }
